@@ -201,7 +201,8 @@ class PixelAperture(Aperture):
             subpixels = 32
 
         if ((mode == 'subpixel')
-                and (not isinstance(subpixels, int) or subpixels <= 0)):
+                and (not isinstance(subpixels, (int, np.integer))
+                     or subpixels <= 0)):
             raise ValueError('subpixels must be a strictly positive integer')
 
         if mode == 'center':
